@@ -30,7 +30,9 @@ EXPLANATION = (
     'the type guard in front of every marker test of the reader dispatch; '
     'R-C06.4 (as reformulated) every attribute written through serialize_to_signature is compared by __eq__ through a recursive tuple->list normaliser; R-C06.8 every name in FieldSignature._ATTRIBUTE_DEFAULTS is a constructor parameter of the django field class (installed Django source); R-C06.9 from_*() and deserialize() agree on the empty normal form (None) of every constructor argument; R-C06.10 no field option name is shadowed by a class member of FieldSignature (deserialize skips hasattr(cls, name)).'
     ' '
-    "R-C06.11 a version-2 signature is rebuilt from the stored dictionary alone: environment reads (get_app, get_app_upgrade_info, ...) inside deserialize() are reachable only on the sig_version == 1 branch (CFG reachability with the version tests' edges dropped).")
+    "R-C06.11 a version-2 signature is rebuilt from the stored dictionary alone: environment reads (get_app, get_app_upgrade_info, ...) inside deserialize() are reachable only on the sig_version == 1 branch (CFG reachability with the version tests' edges dropped)."
+    ' '
+    'R-C06.12 module redirections of the legacy unpickler that test a dotted prefix also cover the package name itself.')
 NOT_DECIDED = (
     'Round-trip equality for all values (nested Q/F/expressions, unicode, '
     'enums, legacy pickles) - needs execution.')
@@ -1018,7 +1020,60 @@ def r11_current_format_read_from_stored_data_alone(ctx):
     ctx.counts['R-C06.11 environment reads inside deserialize'] = n_env
 
 
+def r12_module_remaps_cover_the_package_itself(ctx):
+    """DjangoCompatUnpickler.find_class() redirects class lookups of legacy
+    (version 1, pickled) signatures: `django.db.models.fields` ->
+    `django.db.models` and so on.  A prefix test with a trailing dot
+    (`module.startswith('a.b.')`) does not match the package `a.b` itself;
+    unless the same branch also tests `module == 'a.b'`, classes pickled
+    under the package name are no longer redirected and a stored version-1
+    signature cannot be read at all."""
+    ctx.rule('R-C06.12')
+    p = ctx.program
+    m = p.module('compat.picklers')
+    n = 0
+    for f in m.all_funcs():
+        if f.name != 'find_class':
+            continue
+        for t in walk_no_nested(f.node):
+            if not isinstance(t, ast.If):
+                continue
+            tests = [x for x in ast.walk(t.test)
+                     if isinstance(x, (ast.Compare, ast.Call))]
+            for x in tests:
+                if isinstance(x, ast.Compare) and len(x.ops) == 1 and \
+                        isinstance(x.ops[0], (ast.Eq, ast.In)) and \
+                        any(const_str(c) for c in ast.walk(x)):
+                    n += 1
+                if isinstance(x, ast.Call) and call_name(x) == 'startswith' \
+                        and x.args and const_str(x.args[0]):
+                    n += 1
+                    lit = const_str(x.args[0])
+                    if lit.endswith('.'):
+                        exact = any(
+                            isinstance(y, ast.Compare) and any(
+                                const_str(c) == lit[:-1]
+                                for c in ast.walk(y))
+                            for y in ast.walk(t.test))
+                        if not exact:
+                            ctx.finding(f, x, 'find_class redirects modules '
+                                        'that start with %r but not the '
+                                        'package %r itself: field classes '
+                                        'pickled under the package name '
+                                        '(FileField, ImageField of old '
+                                        'version-1 signatures) are no '
+                                        'longer found and the stored '
+                                        'signature cannot be loaded' % (
+                                            lit, lit[:-1]),
+                                        key='prefix-excludes-package:%s' %
+                                        lit)
+    ctx.floor('module tests in DjangoCompatUnpickler.find_class', n, 2)
+    ctx.ok(('django_evolution.compat.picklers', 'DjangoCompatUnpickler'),
+           'module redirections include the package names themselves')
+
+
 def run(ctx):
+    r12_module_remaps_cover_the_package_itself(ctx)
     r11_current_format_read_from_stored_data_alone(ctx)
     r6_presence_not_value(ctx)
     r1_key_agreement(ctx)
